@@ -708,6 +708,16 @@ fn c19(
             let ok = std::io::Read::read_to_end(&mut brotli::Decompressor::new(body.as_slice(), 4096), &mut plain)
               .is_ok();
             if ok {
+              if reply.status.is_success() && reply.header("content-type").as_deref() != Some(want_type.as_str()) {
+                out.push(v(
+                  P,
+                  "wrong_content_type",
+                  format!(
+                    "{path} (decompressed): content-type {:?}, stored {want_type:?}",
+                    reply.header("content-type")
+                  ),
+                ));
+              }
               if !reply.status.is_success() || reply.body != plain {
                 out.push(v(
                   P,
@@ -736,6 +746,16 @@ fn c19(
           }
           // accepted by the client: passed through
           let reply = web.get(&path, &[("accept-encoding", enc.as_str())]);
+          if reply.status.is_success() && reply.header("content-type").as_deref() != Some(want_type.as_str()) {
+            out.push(v(
+              P,
+              "wrong_content_type",
+              format!(
+                "{path} (encoding passed through): content-type {:?}, stored {want_type:?}",
+                reply.header("content-type")
+              ),
+            ));
+          }
           if !reply.status.is_success()
             || &reply.body != body
             || reply.header("content-encoding").as_deref() != Some(enc.as_str())
